@@ -549,10 +549,76 @@ fn event_body(s: &str) -> String { // "event #3 Xyz {..} action=.." -> "Xyz {..}
 }
 fn event_kind(body: &str) -> String { body.split(|c: char| !c.is_alphanumeric()).next().unwrap_or("").to_string() }
 
+/// The pinned normalisation of the hand-serialized per-channel state (mirrors Props/C12 `enumCanon` and the comments of
+/// `FundedChannel::write`: "we write out as if remove_uncommitted_htlcs_and_mark_paused had just been called"):
+///   update_status  DisabledStaged(_) -> Enabled, EnabledStaged(_) -> Disabled (the state as last ANNOUNCED; tick counters dropped)
+///   announcement_sigs  MessageSent | Committed -> NotSent
+///   state_bits     PEER_DISCONNECTED set, LOCAL_STFU_SENT / REMOTE_STFU_SENT / QUIESCENT cleared
+///   pending_update_fee  outbound: (feerate, Outbound); inbound: kept only in AwaitingRemoteRevokeToAnnounce
+///   inbound HTLCs in RemoteAnnounced are dropped (and next_counterparty_htlc_id reduced by their number)
+///   outbound HTLCs in RemoteRemoved are written as Committed
+/// Applied to the dump taken BEFORE the write (it is the identity on a dump of a freshly read manager).
+fn canon_chan_lines(lines: &[String]) -> Vec<String> {
+	let tok = |l: &str, key: &str| -> Option<String> { l.split(' ').find(|t| t.starts_with(key)).map(|t| t[key.len()..].to_string()) };
+	let mut out = vec![];
+	for l in lines {
+		match line_kind(l) {
+			"chan" => {
+				let id = l.split(' ').nth(1).unwrap_or("").to_string();
+				let dropped = lines.iter().filter(|m| line_kind(m) == "chan_in" && m.split(' ').nth(1) == Some(&id[..]) && m.ends_with("state=RemoteAnnounced")).count() as u64;
+				let outbound = tok(l, "outbound=").as_deref() == Some("true");
+				let toks: Vec<String> = l.split(' ').map(|t| {
+					if let Some(v) = t.strip_prefix("update_status=") { format!("update_status={}", if v.starts_with("DisabledStaged") { "Enabled" } else if v.starts_with("EnabledStaged") { "Disabled" } else { v }) }
+					else if let Some(v) = t.strip_prefix("announcement_sigs=") { format!("announcement_sigs={}", if v == "MessageSent" || v == "Committed" { "NotSent" } else { v }) }
+					else if let Some(v) = t.strip_prefix("state_bits=") { let n: u64 = v.parse().unwrap_or(0); format!("state_bits={}", (n | (1 << 7)) & !((1 << 14) | (1 << 15) | (1 << 16))) }
+					else if let Some(v) = t.strip_prefix("next_counterparty_htlc_id=") { let n: u64 = v.parse().unwrap_or(0); format!("next_counterparty_htlc_id={}", n.saturating_sub(dropped)) }
+					else { t.to_string() }
+				}).collect();
+				let mut s = toks.join(" ");
+				// pending_update_fee=Some((253, Outbound)) is two tokens: rewrite on the joined text
+				if let Some(p) = s.find("pending_update_fee=Some((") {
+					let rest = &s[p + 25..];
+					let end = rest.find("))").map(|e| e + 2).unwrap_or(rest.len());
+					let inner = &rest[..end.saturating_sub(2)];
+					let feerate = inner.split(',').next().unwrap_or("").trim().to_string();
+					let st = inner.split(',').nth(1).unwrap_or("").trim().to_string();
+					let repl = if outbound { format!("pending_update_fee=Some(({}, Outbound))", feerate) } else if st == "AwaitingRemoteRevokeToAnnounce" { format!("pending_update_fee=Some(({}, AwaitingRemoteRevokeToAnnounce))", feerate) } else { "pending_update_fee=None".to_string() };
+					s = format!("{}{}{}", &s[..p], repl, &rest[end..]);
+				}
+				out.push(s);
+			},
+			"chan_in" => { if !l.ends_with("state=RemoteAnnounced") { out.push(l.clone()); } },
+			"chan_out" => out.push(l.replace(" state=RemoteRemoved ", " state=Committed ")),
+			_ => out.push(l.clone()),
+		}
+	}
+	out
+}
+
 /// differences not explained by a reload; `added` collects the kinds of what the reload added / resolved (statistics)
-fn deep_diff(before: &[String], after: &[String], added: &mut Vec<String>) -> Vec<String> {
+fn deep_diff(before: &[String], after: &[String], added: &mut Vec<String>) -> Vec<String> { deep_diff_ex(before, after, added, false) }
+
+/// `pumped`: the reloaded manager has already processed its background events (a real restart followed by
+/// get_and_clear_pending_msg_events): a channel that was written with MONITOR_UPDATE_IN_PROGRESS and monitor-pending
+/// messages has been restored by `MonitorUpdatesComplete` (the monitors handed over are up to date) — for such a channel
+/// that bit and the monitor_pending / forwards / failures counters are not compared.
+fn deep_diff_ex(before: &[String], after: &[String], added: &mut Vec<String>, pumped: bool) -> Vec<String> {
 	let mut diffs = vec![];
-	let strict = ["claimable", "forward", "intercepted", "decode_update_add", "outbound"];
+	let mut before = canon_chan_lines(before);
+	let mut after = canon_chan_lines(after);
+	if pumped {
+		let in_progress: Vec<String> = before.iter().filter(|l| line_kind(l) == "chan").filter(|l| l.split(' ').find_map(|t| t.strip_prefix("state_bits=")).and_then(|v| v.parse::<u64>().ok()).map(|n| n & (1 << 8) != 0).unwrap_or(false)).map(|l| l.split(' ').nth(1).unwrap_or("").to_string()).collect();
+		for v in [&mut before, &mut after] { for l in v.iter_mut() {
+			if line_kind(l) == "chan" && in_progress.iter().any(|id| l.split(' ').nth(1) == Some(&id[..])) {
+				let toks: Vec<String> = l.split(' ').map(|t| if let Some(x) = t.strip_prefix("state_bits=") { format!("state_bits={}", x.parse::<u64>().unwrap_or(0) & !(1 << 8)) } else if t.starts_with("monitor_pending=") || t.starts_with("forwards=") || t.starts_with("failures=") || t.starts_with("resend_order=") { t.split('=').next().unwrap_or("").to_string() + "=_" } else { t.to_string() }).collect();
+				*l = toks.join(" ");
+				added.push("channel-monitor-update-restored-by-reload".into());
+			}
+		} }
+	}
+	let before = &before[..];
+	let after = &after[..];
+	let strict = ["claimable", "forward", "intercepted", "decode_update_add", "outbound", "chan", "chan_in", "chan_out", "chan_hold"];
 	let pick = |v: &[String], k: &str| -> Vec<String> { let mut x: Vec<String> = v.iter().filter(|l| line_kind(l) == k).map(|l| mask_ticks(l)).collect(); x.sort(); x };
 	let ev_after: Vec<String> = after.iter().filter(|l| line_kind(l) == "event").map(|l| event_body(l)).collect();
 	let ev_before: Vec<String> = before.iter().filter(|l| line_kind(l) == "event").map(|l| event_body(l)).collect();
@@ -578,7 +644,7 @@ fn deep_diff(before: &[String], after: &[String], added: &mut Vec<String>) -> Ve
 			a.sort(); b.sort();
 		}
 		if a != b {
-			let key = |l: &str| -> String { l.split(' ').take(2).collect::<Vec<_>>().join(" ") };
+			let key = |l: &str| -> String { l.split(' ').take(if k.starts_with("chan_") { 3 } else { 2 }).collect::<Vec<_>>().join(" ") };
 			let only_a: Vec<&String> = a.iter().filter(|l| !b.contains(l)).collect();
 			let mut only_b: Vec<&String> = b.iter().filter(|l| !a.contains(l)).collect();
 			for l in only_a {
@@ -730,7 +796,7 @@ fn reload_check(net: &mut Net, i: usize, st: &mut St, ctx: &mut Ctx) {
 			}
 			let deep_after = vh::manager_persisted_state_dump(net.nodes[i].node);
 			let mut added = vec![];
-			let dd = deep_diff(&deep_before, &deep_after, &mut added);
+			let dd = deep_diff_ex(&deep_before, &deep_after, &mut added, true);
 			for a in added { ctx.bump(&format!("deep:{}", a)); }
 			if !dd.is_empty() && std::env::var("C12_DEBUG").is_ok() { eprintln!("== reload_check node {}\nBEFORE\n{}\nAFTER\n{}\nTRACE\n{}", i, deep_before.join("\n"), deep_after.join("\n"), net.trace.iter().rev().take(60).rev().map(|o| fmt_obs(o)).collect::<Vec<_>>().join("\n")); }
 			if !dd.is_empty() { ctx.fail_once(&format!("reload-deep:{}", class_key(&dd[0])), format!("ChannelManager of node {}: persisted payment state differs after write+reload: {}", i, dd.iter().take(3).map(|s| s.chars().take(420).collect::<String>()).collect::<Vec<_>>().join(" || "))); }
@@ -885,10 +951,17 @@ enum Act {
 	Claim, FailBack,
 	Mode(usize, bool), Complete(usize),
 	Blocks(u32),
+	/// the two peers lose / regain their connection
+	Disconnect(usize, usize), Reconnect(usize, usize),
+	/// ONE timer tick at the node (gossip enable / disable staging counts single ticks)
+	Tick1(usize),
 }
 fn auto(v: &mut Vec<Act>, n: usize) { for _ in 0..n { v.push(Act::Micro); } }
 
-struct Script { name: String, acts: Vec<Act> }
+struct Script { name: String, acts: Vec<Act>,
+	/// timer ticks given to the cut node right after the cut, in BOTH runs (the staged tick counters are documented as not
+	/// persisted: enough ticks to finish any staged transition make the two runs comparable)
+	cut_ticks: usize }
 
 fn rare_scripts(rng: &mut Rng) -> Vec<Script> {
 	let amt = 600_000 + rng.below(400_000);
@@ -903,7 +976,7 @@ fn rare_scripts(rng: &mut Rng) -> Vec<Script> {
 			a.push(Act::Ticks(2)); auto(&mut a, 2);
 			match tail { "claim" => a.push(Act::Claim), "fail" => a.push(Act::FailBack), _ => { a.push(Act::Blocks(40)); a.push(Act::Ticks(2)); a.push(Act::Blocks(60)); } }
 			auto(&mut a, 24);
-			out.push(Script { name: format!("{}-{} amt={} delta={}", tag, tail, amt, delta), acts: a });
+			out.push(Script { cut_ticks: 0, name: format!("{}-{} amt={} delta={}", tag, tail, amt, delta), acts: a });
 		}
 	}
 	// two-part payment, each part skimmed; partially received in between
@@ -912,27 +985,27 @@ fn rare_scripts(rng: &mut Rng) -> Vec<Script> {
 		a.push(Act::Intercept { delta: skim }); auto(&mut a, 14);
 		a.push(Act::Intercept { delta: skim / 2 }); auto(&mut a, 14);
 		a.push(Act::Ticks(2)); auto(&mut a, 2); a.push(Act::Claim); auto(&mut a, 30);
-		out.push(Script { name: format!("mpp2-underpaid-claim amt={} skims={},{}", amt, skim, skim / 2), acts: a });
+		out.push(Script { cut_ticks: 0, name: format!("mpp2-underpaid-claim amt={} skims={},{}", amt, skim, skim / 2), acts: a });
 		// the second part is decided only after the first timed out
 		let mut a = vec![Act::Pay { parts: 2, amt, intercept: true }]; auto(&mut a, 22);
 		a.push(Act::Intercept { delta: skim }); auto(&mut a, 14);
 		a.push(Act::Ticks(2)); auto(&mut a, 16);
 		a.push(Act::Intercept { delta: 0 }); auto(&mut a, 14);
 		a.push(Act::Ticks(2)); auto(&mut a, 24);
-		out.push(Script { name: format!("mpp2-partial-timeout amt={} skim={}", amt, skim), acts: a });
+		out.push(Script { cut_ticks: 0, name: format!("mpp2-partial-timeout amt={} skim={}", amt, skim), acts: a });
 		// one part forwarded, the other failed by the interceptor
 		let mut a = vec![Act::Pay { parts: 2, amt, intercept: true }]; auto(&mut a, 22);
 		a.push(Act::Intercept { delta: -over }); auto(&mut a, 14);
 		a.push(Act::FailIntercept); auto(&mut a, 14);
 		a.push(Act::Ticks(2)); auto(&mut a, 24);
-		out.push(Script { name: format!("mpp2-one-part-failed amt={} over={}", amt, over), acts: a });
+		out.push(Script { cut_ticks: 0, name: format!("mpp2-one-part-failed amt={} over={}", amt, over), acts: a });
 	}
 	// holding cell: three sends back to back (the 2nd and 3rd wait in the holding cell for the first RAA), both directions
 	{
 		let mut a = vec![Act::PayDirect { from: 0, to: 1, chan: 0, amt: 40_000 + rng.below(10_000) }, Act::PayDirect { from: 0, to: 1, chan: 0, amt: 50_000 + rng.below(10_000) }, Act::Micro, Act::Micro,
 			Act::PayDirect { from: 1, to: 0, chan: 0, amt: 60_000 + rng.below(10_000) }, Act::Pay { parts: 1, amt, intercept: false }];
 		auto(&mut a, 40); a.push(Act::Claim); auto(&mut a, 40);
-		out.push(Script { name: format!("holding-cell amt={}", amt), acts: a });
+		out.push(Script { cut_ticks: 0, name: format!("holding-cell amt={}", amt), acts: a });
 	}
 	// in-flight monitor updates, blocked completion actions, pending claims: the recipient and the forwarding node persist
 	// asynchronously while the claim travels back
@@ -940,11 +1013,25 @@ fn rare_scripts(rng: &mut Rng) -> Vec<Script> {
 		let mut a = vec![Act::Pay { parts: 1, amt, intercept: false }]; auto(&mut a, 26);
 		a.push(Act::Mode(2, true)); a.push(Act::Mode(1, true)); a.push(Act::Claim); auto(&mut a, 6);
 		a.push(Act::Complete(2)); auto(&mut a, 8); a.push(Act::Complete(1)); auto(&mut a, 8); a.push(Act::Complete(1)); a.push(Act::Complete(2)); a.push(Act::Mode(1, false)); a.push(Act::Mode(2, false)); auto(&mut a, 30);
-		out.push(Script { name: format!("async-persist-claim amt={}", amt), acts: a });
+		out.push(Script { cut_ticks: 0, name: format!("async-persist-claim amt={}", amt), acts: a });
 		let mut a = vec![Act::Pay { parts: 2, amt, intercept: true }]; auto(&mut a, 22);
 		a.push(Act::Mode(1, true)); a.push(Act::Intercept { delta: skim }); a.push(Act::Intercept { delta: 0 }); auto(&mut a, 8); a.push(Act::Complete(1)); auto(&mut a, 24);
 		a.push(Act::Mode(2, true)); a.push(Act::Claim); auto(&mut a, 6); a.push(Act::Complete(2)); auto(&mut a, 6); a.push(Act::Complete(1)); a.push(Act::Complete(2)); a.push(Act::Mode(1, false)); a.push(Act::Mode(2, false)); auto(&mut a, 40);
-		out.push(Script { name: format!("async-persist-mpp2-underpaid amt={} skim={}", amt, skim), acts: a });
+		out.push(Script { cut_ticks: 0, name: format!("async-persist-mpp2-underpaid amt={} skim={}", amt, skim), acts: a });
+	}
+	// gossip enable / disable staging: the peer of an announced channel goes away for more than DISABLE_GOSSIP_TICKS (10)
+	// ticks (Enabled -> DisabledStaged(n) -> Disabled, a disabling channel_update is broadcast), comes back, and after
+	// ENABLE_GOSSIP_TICKS (5) more ticks (Disabled -> EnabledStaged(n) -> Enabled) the enabling update is broadcast: all four
+	// ChannelUpdateStatus values are written at some cut point
+	{
+		let mut a = vec![Act::Disconnect(0, 1)];
+		for _ in 0..12 { a.push(Act::Tick1(0)); a.push(Act::Tick1(1)); }
+		a.push(Act::Reconnect(0, 1)); auto(&mut a, 6);
+		for _ in 0..7 { a.push(Act::Tick1(0)); a.push(Act::Tick1(1)); }
+		auto(&mut a, 3);
+		// a second, short outage: the peer is back before the disabling update went out (DisabledStaged -> Enabled, nothing broadcast)
+		a.push(Act::Disconnect(0, 1)); for _ in 0..4 { a.push(Act::Tick1(0)); } a.push(Act::Reconnect(0, 1)); auto(&mut a, 6); for _ in 0..3 { a.push(Act::Tick1(0)); }
+		out.push(Script { cut_ticks: 12, name: "gossip-status disable/enable staging".into(), acts: a });
 	}
 	out
 }
@@ -1044,13 +1131,16 @@ impl Rare {
 			Act::Mode(i, m) => { if !*m { complete_all(&mut self.net, *i); } self.net.set_mode(*i, *m); true },
 			Act::Complete(i) => { let mut any = false; for c in [self.c0, self.c1] { if self.net.chans[c].0 == *i || self.net.chans[c].1 == *i { if let Some(id) = self.net.pending_updates(*i, c).first().cloned() { self.net.complete(*i, c, id); any = true; } } } any },
 			Act::Blocks(n) => { for i in 0..3 { connect_blocks(&self.net.nodes[i], *n); } self.net.pump_all(); true },
+			Act::Disconnect(a, b) => { if self.net.connected.contains(&(*a, *b)) { self.net.disconnect(*a, *b); true } else { false } },
+			Act::Reconnect(a, b) => { if !self.net.connected.contains(&(*a, *b)) { self.net.reconnect(*a, *b); true } else { false } },
+			Act::Tick1(i) => { self.net.nodes[*i].node.timer_tick_occurred(); self.net.pump(*i); true },
 		}
 	}
 	fn drain(&mut self) { for _ in 0..400 { match self.net.any_queued() { Some((i, j)) => { self.net.deliver(i, j); }, None => break } } }
 	fn peers_of(&self, x: usize) -> Vec<usize> { (0..3).filter(|j| *j != x && self.net.chans.iter().any(|c| (c.0 == x && c.1 == *j) || (c.0 == *j && c.1 == x))).collect() }
 }
 
-struct Outcome { events: Vec<BTreeSet<String>>, end: Vec<Vec<String>>, effective: Vec<bool>, states: BTreeSet<String>, problem: Option<String>, notes: Vec<String> }
+struct Outcome { updates: Vec<String>, events: Vec<BTreeSet<String>>, end: Vec<Vec<String>>, effective: Vec<bool>, states: BTreeSet<String>, problem: Option<String>, notes: Vec<String> }
 
 /// cut = (k, node, reload?)
 fn run_script(sc: &Script, cut: Option<(usize, usize, bool)>, ctx: &mut Ctx, added: &mut Vec<String>) -> Outcome {
@@ -1060,6 +1150,7 @@ fn run_script(sc: &Script, cut: Option<(usize, usize, bool)>, ctx: &mut Ctx, add
 	let mut problem = None;
 	for (k, act) in sc.acts.iter().enumerate() {
 		if let Some((ck, x, reload)) = cut { if ck == k {
+			let was_connected: Vec<usize> = r.peers_of(x).into_iter().filter(|j| r.net.connected.contains(&(x, *j))).collect();
 			if reload {
 				let deep_before = vh::manager_persisted_state_dump(r.net.nodes[x].node);
 				for l in &deep_before { if line_kind(l) == "claimable" && claimable_partial(l) { states.insert("written:claimable:partially-received-mpp".into()); } }
@@ -1069,6 +1160,7 @@ fn run_script(sc: &Script, cut: Option<(usize, usize, bool)>, ctx: &mut Ctx, add
 					for h in &d.pending_outbound_htlcs { states.insert(format!("written:channel:outbound-htlc:{:?}", h.state)); }
 					if let Some(n) = vh::channel_restart_numbers(r.net.nodes[x].node, &d.counterparty.node_id, &d.channel_id) { if n[5] > 0 { states.insert("written:channel:blocked-monitor-updates".into()); } if n[0] != n[1] { states.insert("written:channel:unreleased-monitor-update".into()); } }
 				}
+				for l in &deep_before { if line_kind(l) == "chan" { if let Some(t) = l.split(' ').find_map(|t| t.strip_prefix("update_status=")) { states.insert(format!("written:channel:update_status:{}", t.split('(').next().unwrap_or(""))); } } }
 				for l in &deep_before { states.insert(match line_kind(l) { "event" => format!("written:event:{}", event_kind(&event_body(l))), "claimable" => format!("written:claimable{}{}", if l.matches("{value=").count() > 1 { ":multi-part" } else { "" }, if claimable_amounts_differ(l) { ":value!=sender_intended" } else { "" }), k => format!("written:{}", k) }); }
 				let (mgr, mons) = r.net.snapshot(x);
 				let cfgs = chan_configs(&r.net, x);
@@ -1077,7 +1169,7 @@ fn run_script(sc: &Script, cut: Option<(usize, usize, bool)>, ctx: &mut Ctx, add
 					Ok(()) => {
 						check_configs_survive(&mut r.net, x, &cfgs, ctx, &format!("scenario `{}`, reload before act #{}", sc.name, k));
 						let deep_after = vh::manager_persisted_state_dump(r.net.nodes[x].node);
-						let d = deep_diff(&deep_before, &deep_after, added);
+						let d = deep_diff_ex(&deep_before, &deep_after, added, true);
 						if !d.is_empty() && problem.is_none() { problem = Some(format!("persisted payment state of node {} differs after write+reload: {}", x, d.iter().take(3).map(|s| s.chars().take(420).collect::<String>()).collect::<Vec<_>>().join(" || "))); }
 					},
 				}
@@ -1085,8 +1177,9 @@ fn run_script(sc: &Script, cut: Option<(usize, usize, bool)>, ctx: &mut Ctx, add
 				complete_all(&mut r.net, x); r.net.set_mode(x, false);
 				for j in r.peers_of(x) { if r.net.connected.contains(&(x, j)) { r.net.disconnect(x, j); } }
 			}
-			for j in r.peers_of(x) { if !r.net.connected.contains(&(x, j)) { r.net.reconnect(x, j); } }
+			for j in was_connected { if !r.net.connected.contains(&(x, j)) { r.net.reconnect(x, j); } }
 			r.drain();
+			for _ in 0..sc.cut_ticks { r.net.nodes[x].node.timer_tick_occurred(); r.net.pump(x); }
 		} }
 		effective.push(r.apply(act));
 	}
@@ -1095,10 +1188,18 @@ fn run_script(sc: &Script, cut: Option<(usize, usize, bool)>, ctx: &mut Ctx, add
 	r.net.settle(30);
 	let _ = ctx;
 	let events = (0..3).map(|i| r.net.events[i].iter().map(ev_summary).collect()).collect();
+	// the announced state of every (node, channel): the sequence of disabled flags of its broadcast channel_updates,
+	// consecutive repetitions collapsed (a reload may re-broadcast the current state)
+	let mut updates: Vec<String> = vec![];
+	{
+		let mut seqs: BTreeMap<(usize, u64), Vec<bool>> = BTreeMap::new();
+		for (n, scid, disabled, _) in r.net.bcast_updates.iter() { let v = seqs.entry((*n, *scid)).or_default(); if v.last() != Some(disabled) { v.push(*disabled); } }
+		for ((n, scid), v) in seqs { updates.push(format!("node {} channel {}: broadcast channel_updates {}", n, r.net.chans.iter().position(|c| c.3 == scid).map(|c| c.to_string()).unwrap_or("?".into()), v.iter().map(|d| if *d { "DISABLED" } else { "enabled" }).collect::<Vec<_>>().join(" -> "))); }
+	}
 	let end = (0..3).map(|i| mgr_dump(&r.net, i)).collect();
 	let notes = r.notes.clone();
 	std::mem::forget(r);
-	Outcome { events, end, effective, states, problem, notes }
+	Outcome { updates, events, end, effective, states, problem, notes }
 }
 
 /// a `claimable` dump line whose parts do not add up to the total yet
@@ -1134,7 +1235,7 @@ fn rare_states(seed: u64, st: &mut St, ctx: &mut Ctx) {
 		}
 		for &k in &cuts {
 			// quick tier: one node per cut point (rotating), every third cut point for the long tails; thorough: all three nodes
-			let concerned = |a: &Act| -> Vec<usize> { match a { Act::Pay { .. } => vec![0], Act::PayDirect { from, .. } => vec![*from], Act::Intercept { .. } | Act::FailIntercept => vec![1], Act::Ticks(i) | Act::Mode(i, _) | Act::Complete(i) => vec![*i], Act::Claim | Act::FailBack => vec![2], Act::Blocks(_) => vec![2], Act::Micro => vec![] } };
+			let concerned = |a: &Act| -> Vec<usize> { match a { Act::Pay { .. } => vec![0], Act::PayDirect { from, .. } => vec![*from], Act::Intercept { .. } | Act::FailIntercept => vec![1], Act::Ticks(i) | Act::Mode(i, _) | Act::Complete(i) => vec![*i], Act::Claim | Act::FailBack => vec![2], Act::Blocks(_) => vec![2], Act::Disconnect(a, _) | Act::Reconnect(a, _) => vec![*a], Act::Tick1(i) => vec![*i], Act::Micro => vec![] } };
 			let mut nodes: Vec<usize> = if ctx.thorough { vec![0, 1, 2] } else { let mut v = concerned(&sc.acts[k]); if k > 0 { v.extend(concerned(&sc.acts[k - 1])); } v };
 			if nodes.is_empty() { nodes.push([2usize, 1, 2, 0][(k + rng.below(4) as usize) % 4]); }
 			nodes.sort(); nodes.dedup();
@@ -1151,6 +1252,7 @@ fn rare_states(seed: u64, st: &mut St, ctx: &mut Ctx) {
 					for e in orig.events[i].iter().filter(|e| !rel.events[i].contains(*e)) { diffs.push(format!("node {}: only the ORIGINAL produced `{}`", i, e)); }
 					for e in rel.events[i].iter().filter(|e| !orig.events[i].contains(*e)) { diffs.push(format!("node {}: only the run with the RELOADED manager produced `{}`", i, e)); }
 				}
+				if orig.updates != rel.updates { diffs.insert(0, format!("announced channel state: ORIGINAL [{}] vs RELOADED [{}]", orig.updates.join("; "), rel.updates.join("; "))); }
 				if !diffs.is_empty() && std::env::var("C12_DEBUG").is_ok() { eprintln!("== {}\n{}\n-- notes orig {:?} rel {:?}", at, diffs.join("\n"), orig.notes, rel.notes); }
 				if !diffs.is_empty() { ctx.fail_once(&format!("rare-behaviour:{}", family), format!("{}: the reloaded manager does not behave like the original (same acts, node {} only disconnected and reconnected instead): {}", at, x, diffs.iter().take(6).cloned().collect::<Vec<_>>().join("; "))); }
 				else {
